@@ -12,6 +12,7 @@ PROP_UNITS = {
     'C08': ['tt'],
     'C06': ['timectl'],
     'C02': ['position'],
+    'C11': ['draws'],
 }
 
 
